@@ -57,7 +57,7 @@ PROPS = {
                 "in EVERY single cut and byte-by-byte (enumerated completely) plus 10..24 drawn multi-cut segmentations, compared with delivery of the "
                 "whole message at once; L1: 1..5 generated requests sent whole and cut through simulated sockets to a real endpoint; distinct = "
                 "distinct (scenario, plan hash, event-log hash); a run is non-trivial if at least one segmentation was delivered",
-        "probes_expected": ["request-complete", "request-error", "request-incomplete", "response-complete", "response-error", "response-incomplete",
+        "probes_expected": ["chunked-with-trailer-section", "request-complete", "request-error", "request-incomplete", "response-complete", "response-error", "response-incomplete",
                             "cut-inside-crlf", "cut-inside-chunk-framing", "trailing-bytes-after-message", "l1-served", "l1-error-status", "l1-unanswered"],
         "assumptions": ["messages up to the configured size limit (beyond it C14 applies)",
                         "for a mutated byte string the message proper is its shortest complete prefix; bytes after it belong to what follows"],
